@@ -15,6 +15,8 @@
 (*                          body parts)                                     *)
 (*   DropFirstAtt, RevAtt   SetAttachments(GetAttachments()[1:] / reversed) *)
 (*   DropFirstEmb           SetEmbeds(GetEmbeds()[1:])                      *)
+(*   Handover               a second Msg takes over the files, the first is  *)
+(*                          reset and refilled (a Msg reused in a loop)      *)
 (* Every leaf is named after the index of the call that created it, so the *)
 (* expectation says WHICH content must appear WHERE.  The final message is  *)
 (* emitted in the format of MimeBuild (parts / embeds / atts with content   *)
@@ -56,6 +58,9 @@ Apply(c) ==
        [] c = "DropFirstAtt" -> atts' = (IF atts = <<>> THEN atts ELSE Tail(atts)) /\ UNCHANGED <<parts, dels, embeds>>
        [] c = "DropFirstEmb" -> embeds' = (IF embeds = <<>> THEN embeds ELSE Tail(embeds)) /\ UNCHANGED <<parts, dels, atts>>
        [] c = "RevAtt" -> atts' = Rev(atts) /\ UNCHANGED <<parts, dels, embeds>>
+       \* another Msg takes the files over (SetAttachments(GetAttachments()), SetEmbeds(GetEmbeds())), the first one is
+       \* reset and refilled; the calls continue on the new message, which has no body part yet
+       [] c = "Handover" -> parts' = <<>> /\ dels' = {} /\ UNCHANGED <<embeds, atts>>
 
 Next == Len(hist) < MAXCALLS /\ \E c \in CALLS : Apply(c)
 Spec == Init /\ [][Next]_vars
